@@ -21,7 +21,10 @@ Definition dec_res (x : sx) : option res :=
         | _, _, _, _, _ => None
         end
       else None
-  | SL [t; m] => if sx_is "local" t then option_map RLocalR (sx_bytes m) else None
+  | SL [t; m] =>
+      (* (write-error m): a Write of the data writer failed - a local error, recorded in front of the
+         results of the Close calls *)
+      if sx_is "local" t || sx_is "write-error" t then option_map RLocalR (sx_bytes m) else None
   | _ => if sx_is "nil" x then Some RNilR else None
   end.
 
@@ -52,6 +55,15 @@ Definition dec_call (x : sx) : option call :=
       else None
   | SL [t; SL ps; cb; n] =>
       if sx_is "data" t || sx_is "lmtpdata" t then
+        match map_opt sx_bytes ps, sx_bool cb, sx_nat n with
+        | Some ps, Some cb, Some n => Some (KData (sx_is "lmtpdata" t) ps cb n)
+        | _, _, _ => None
+        end
+      else None
+  | SL [t; SL ps; cb; n; SL [pz; SL _]] =>
+      (* (pauses (ms ...)): the caller slept before its Writes / before Close (harness/gentripw.go);
+         the judgement is the same *)
+      if (sx_is "data" t || sx_is "lmtpdata" t) && sx_is "pauses" pz then
         match map_opt sx_bytes ps, sx_bool cb, sx_nat n with
         | Some ps, Some cb, Some n => Some (KData (sx_is "lmtpdata" t) ps cb n)
         | _, _, _ => None
@@ -380,8 +392,12 @@ Definition check_trip (args : list sx) : verdict :=
                 else ([], []) in
               let panics := match assoc1 "panics" obs with Some p => match sx_N p with Some n => n | None => 0%N end | None => 0%N end in
               mkV true true (SL []) (dedup (viol ++ oracle_panics panics false)) (dedup kf)
-                  [bs "trip-" ++ focus;
-                   if (List.length calls =? List.length results)%nat then bs "complete" else bs "short"]
+                  ([bs "trip-" ++ focus;
+                    if (List.length calls =? List.length results)%nat then bs "complete" else bs "short"]
+                   ++ match assoc1 "slow-caller" expect with
+                      | Some (SA a) => [bs "slow-caller-" ++ a]
+                      | _ => []
+                      end)
           | _, _, _, _ => bad_case
           end
       | _, _, _, _, _, _, _ => bad_case
